@@ -57,6 +57,17 @@ def alphabet(tier):
         {"s": P, "op": "pop_rset"},
         {"s": P, "op": "pop_quit"},
         {"s": P, "op": "pop_drop"},
+        {"s": P, "op": "pop_uidl1", "n": 2},
+        {"s": P, "op": "pop_uidl1", "n": 9},
+        {"s": P, "op": "pop_top", "n": 3, "k": 0},
+        {"s": P, "op": "pop_noop"},
+        {"s": P, "op": "pop_raw", "line": "TOP 1", "expect": "err"},
+        {"s": P, "op": "pop_raw", "line": "TOP 1 -1", "expect": "err"},
+        {"s": P, "op": "pop_raw", "line": "TOP x 1", "expect": "err"},
+        {"s": P, "op": "pop_raw", "line": "DELE", "expect": "err"},
+        {"s": P, "op": "pop_raw", "line": "RETR 1 2", "expect": "err"},
+        {"s": P, "op": "pop_raw", "line": "BOGUS", "expect": "err"},
+        {"s": P, "op": "pop_raw", "line": "CAPA", "multiline": True},
         {"s": A, "op": "append", "m": "INBOX"},
         {"s": A, "op": "del", "set": "1"},
         {"s": A, "op": "del", "set": "*"},
